@@ -84,6 +84,8 @@ type SeqCheck struct {
 	Rule    string
 	// NonTrivial decides from the executed history whether it counts.
 	NonTrivial func(h []stepInfo) bool
+	// GenOp overrides the op generator (may be nil).
+	GenOp func(rt *rapid.T, w *World, pre *Snapshot, prof Profile) Op
 	// AfterStep lets a property add its own oracle after a step (may be nil).
 	AfterStep func(rt *rapid.T, w *World, h []stepInfo) []Violation
 	// AtEnd runs once after the last step (may be nil).
@@ -193,7 +195,12 @@ func RunSeq(t *testing.T, sc SeqCheck) {
 		}
 		ended := ""
 		for i := 0; i < n; i++ {
-			op := genOp(rt, w, pre, sc.Profile)
+			var op Op
+			if sc.GenOp != nil {
+				op = sc.GenOp(rt, w, pre, sc.Profile)
+			} else {
+				op = genOp(rt, w, pre, sc.Profile)
+			}
 			op.N = i
 			ops = append(ops, op)
 			st, cl, ok := preInfo(w, pre, op)
@@ -203,8 +210,20 @@ func RunSeq(t *testing.T, sc SeqCheck) {
 			if len(own) > 0 {
 				fail(own)
 			}
+			if len(foreign) > 0 && anyStep(hist, func(s stepInfo) bool { return s.Out.Op.Kind == "fault" }) {
+				// state invariants of other properties are stated for command histories; what a
+				// torn write leaves behind is outside their domain
+				stats.Label("ended.crash_residue_outside_other_properties_domain")
+				ended = "foreign"
+				break
+			}
 			if len(foreign) > 0 {
 				stats.ForeignViolation(foreign[0].Prop)
+				var outs []StepOut
+				for _, s := range hist {
+					outs = append(outs, s.Out)
+				}
+				stats.ForeignExample(foreign[0], describeOps(outs))
 				ended = "foreign"
 				break
 			}
@@ -248,6 +267,9 @@ func RunSeq(t *testing.T, sc SeqCheck) {
 				stats.Label("rejected")
 			}
 			stats.Label("decision." + s.Out.Decision)
+			for _, l := range s.Out.Labels {
+				stats.Label(l)
+			}
 			for _, r := range s.Out.Reasons {
 				if r.Owner != "" {
 					stats.Label("reason." + r.Owner)
